@@ -547,6 +547,11 @@ def run(ctx):
             return  # explained by a per-gate event already classified above
         # mechanism classifier: is the excess explained by rotation angles within 1e-6 of a multiple of pi having been replaced by that multiple?
         mech = "ct:circuit-bound"
+        for o in tape.operations:  # PhaseShift(k pi/4), k = 3 or 5 mod 8, is T^3 / T^5 – the transform's shortcut emits T^dagger / T for every odd k
+            if o.name == "PhaseShift":
+                q = float(o.data[0]) / (math.pi / 4)
+                if abs(q - round(q)) * (math.pi / 4) < 1e-6 and int(round(q)) % 8 in (3, 5):
+                    mech = "ct:phaseshift-odd-pi/4-shortcut"
         try:
             snapped = []
             for o in tape.operations:
@@ -555,7 +560,7 @@ def run(ctx):
                 else:
                     snapped.append(o)
             Usn, _ = bridge.tape_unitary(snapped, wires)
-            if any(a is not b for a, b in zip(snapped, tape.operations)) and opnorm_phase(Uout, Usn) <= eps * (1 + 1e-6) + 1e-9:
+            if mech == "ct:circuit-bound" and any(a is not b for a, b in zip(snapped, tape.operations)) and opnorm_phase(Uout, Usn) <= eps * (1 + 1e-6) + 1e-9:
                 mech = "ct:snap-tolerance"
         except Exception:  # noqa: BLE001
             pass
